@@ -23,12 +23,13 @@ Definition w_kres (r : kres) : list Z :=
   match r with
   | RGen id p => [0; id; zb (p_public_only p); zb (p_kid_is_thumbprint p); alg_code (p_alg p); p_key p]
   | RId id => [0; id] | RSig s => [0; s] | RUnit => [0] | RBool b => [0; zb b] | RErr e => [1; kerr_code e] end.
-Fixpoint run1 (fuel : nat) (n : Z) (l : list Z) (s : kstate) : list Z :=
+Fixpoint run1g (step : kstate -> kop -> kstate * kres) (hide : bool) (fuel : nat) (n : Z) (l : list Z) (s : kstate) : list Z :=
   match fuel with O => [] | S f =>
     match l with [] => [] | _ =>
       match rkop n l with
-      | Some (o, rest) => let (s', r) := kstep s o in w_kres r ++ run1 f (n + 1) rest s'
+      | Some (o, rest) => let (s', r) := step s o in (match r with RErr _ => if hide then [1; -1] else w_kres r | _ => w_kres r end) ++ run1g step hide f (n + 1) rest s'
       | None => ERR_DECODE end end end.
+Definition run1 := run1g kstep false.
 Definition rid (l : list Z) : option (idop * list Z) :=
   match l with
   | 0 :: d :: k :: r => Some (IInsert d k, r) | 1 :: d :: r => Some (IGet d, r) | 2 :: d :: r => Some (IDelete d, r) | _ => None end.
@@ -41,8 +42,12 @@ Definition c15_run (input : list Z) : list Z :=
   match input with
   | 1 :: _ :: l => run1 (length l) 0 l ks_init
   | 2 :: _ :: l => run2 (length l) l []
+  (* 11 / 12: the same histories on the Stronghold-backed store: the contract, hence the model, is the same *)
+  | 11 :: _ :: l => run1g kstep_sh true (length l) 0 l ks_init     (* error kinds differ between the stores and are not part of the contract *)
+  | 12 :: _ :: l => run2 (length l) l []
   | 3 :: n :: _ :: sched =>
       let r := rrun sched in
       let wins := filter (fun t => match r_pc r t with Done true => true | _ => false end) (map Z.of_nat (seq 1 (Z.to_nat n))) in
       [Z.of_nat (length wins); match r_store r, wins with Some w, [w'] => zb (w =? w') | _, _ => 0 end]
+  | 13 :: _ => [-5555]      (* BBS+ keys: property oracle only *)
   | _ => ERR_DECODE end.
